@@ -66,6 +66,7 @@ def run_job(job):
             r = sim_link(argv, workdir, plan, tag=f"s{s}", env_extra=env)
             check_sim_health(r, f"graph job {index} schedule {s}")
             res["runs"] += 1
+            res.setdefault("trace", []).append((s, r.status, r.steps, r.trace_hash))
             res["steps"] += r.steps
             res["switches"] += int(r.summary.get("switches", 0))
             c = res["counters"]
